@@ -27,7 +27,7 @@ RULE = (
 )
 BOUNDS = {"rows": "12-400", "steps": "1-12"}
 ASSUMPTIONS = ["no side-effect claim is made for copy=False (the package documents in-place work)"]
-BUDGET = {"quick": 500, "thorough": 15000}
+BUDGET = {"quick": 900, "thorough": 15000}
 DEADLINE_S = {"quick": 220, "thorough": 3300}
 CLASSES = CARVERS + PIPELINES + STEPS + ("BinaryCarver", "ContinuousCarver", "Discretizer", "ChainedDiscretizer")
 FRAMES = ["train", "subset", "perm", "reindex", "dev", "cross", "cross_subset"]
